@@ -45,9 +45,18 @@ def r1_validation_dominates_use(ctx):
         raise AnalysisError("_get_basilisp_bytecode changed signature")
     _full, mtime_p, size_p, data_p = params[:4]
     g = CFG(fn)
-    loads = [nd for nd in g.nodes if nd.kind == "stmt" and any(P.un(c.func) == "marshal.loads" for c in P.calls(nd.ast))]
+    loads = [nd for nd in g.nodes if nd.kind in ("stmt", "test", "iter") and nd.ast is not None and any(P.un(c.func) in ("marshal.loads", "marshal.load") for c in P.calls(nd.ast))]
     if not loads:
-        raise AnalysisError("_get_basilisp_bytecode no longer calls marshal.loads")
+        raise AnalysisError("_get_basilisp_bytecode no longer decodes the payload with marshal")
+    # framing: the payload is ONE marshalled object decoded from all remaining bytes, so that a file cut
+    # anywhere inside it fails to decode (FT: marshal raises EOFError/ValueError on a truncated object).
+    # A sequence of records read until the data runs out accepts a file cut at a record boundary.
+    streamed = [nd for nd in loads if any(P.un(c.func) == "marshal.load" for c in P.calls(nd.ast))]
+    in_loop = [nd for nd in loads if any(isinstance(a, (ast.While, ast.For)) for a in P.ancestors(nd.ast if not isinstance(nd.ast, ast.While) else nd.ast) if P.contains(fn, a)) or nd.kind == "iter"]
+    ok = not streamed and not in_loop
+    ctx.ob("C14.R1", f"{IMP}::_get_basilisp_bytecode::the payload is one marshalled object, decoded once", IMP, loads[0].line, ok,
+           "" if ok else "the payload is decoded as a run of records until the data ends: a cache file cut exactly at a record boundary decodes as a shorter, valid list and a partial namespace is executed",
+           witness="a .lpyc truncated right after the header, or between two top-level forms")
     checks = {"magic": "MAGIC_NUMBER", "timestamp": mtime_p, "size": size_p}
     for label, needle in checks.items():
         tests = [nd for nd in g.nodes if nd.kind == "test" and isinstance(nd.ast, ast.Compare) and needle in P.names_read(nd.ast) and isinstance(nd.ast.ops[0], (ast.NotEq, ast.Eq))]
@@ -67,8 +76,13 @@ def r1_validation_dominates_use(ctx):
                    "" if ok else f"marshal.loads is reachable without the {label} having matched")
     # payload is read from the data parameter
     for l in loads:
-        c = next(c for c in P.calls(l.ast) if P.un(c.func) == "marshal.loads")
-        ok = data_p in P.names_read(c.args[0])
+        c = next(c for c in P.calls(l.ast) if P.un(c.func) in ("marshal.loads", "marshal.load"))
+        src_names = set(P.names_read(c.args[0]))
+        # one level of local indirection (a buffer object built from the data parameter)
+        for a in ast.walk(fn):
+            if isinstance(a, ast.Assign) and any(isinstance(t, ast.Name) and t.id in src_names for t in a.targets):
+                src_names |= set(P.names_read(a.value))
+        ok = data_p in src_names
         ctx.ob("C14.R1", f"{IMP}::_get_basilisp_bytecode::{P.un(c)}", IMP, l.line, ok, "" if ok else "payload is not taken from the validated buffer")
     ex = ctx.fn(IMP, "BasilispImporter._exec_cached_module")
     g2 = CFG(ex)
@@ -157,10 +171,11 @@ def r2_layout_agreement(ctx):
             lo = int(sl.lower.value) if sl.lower is not None else 0
             hi = int(sl.upper.value) if sl.upper is not None else None
             slices[P.un(a.targets[0])] = (lo, hi, a.lineno)
-    for c in P.calls(r):
-        if P.un(c.func) == "marshal.loads" and isinstance(c.args[0], ast.Subscript):
-            sl = c.args[0].slice
-            slices["<payload>"] = (int(sl.lower.value) if sl.lower is not None else 0, int(sl.upper.value) if sl.upper is not None else None, c.lineno)
+    # the payload: the open-ended slice of the data handed to the decoder (directly or through a buffer object)
+    for sub in P.walk_local(r):
+        if isinstance(sub, ast.Subscript) and P.un(sub.value) == data_p and isinstance(sub.slice, ast.Slice) and sub.slice.upper is None and isinstance(P.parent(sub), ast.Call):
+            sl = sub.slice
+            slices["<payload>"] = (int(sl.lower.value) if isinstance(sl.lower, ast.Constant) else 0, None, sub.lineno)
     # which reader variable is compared with which semantic parameter
     sem = {}
     for t in ast.walk(r):
@@ -174,7 +189,8 @@ def r2_layout_agreement(ctx):
                         sem[var] = wparams[0]
                     elif rparams[2] in names:
                         sem[var] = wparams[1]
-    sem["<payload>"] = "payload"
+    if "<payload>" in slices:
+        sem["<payload>"] = "payload"
     for name, a, b in layout:
         got = [(v, slices[v]) for v, s in sem.items() if s == name]
         if not got:
